@@ -258,6 +258,26 @@ func runC08(c *Ctx, r *Run) {
 			fns = append(fns, f)
 		}
 	}
+	{
+		have := map[*ssa.Function]bool{}
+		for _, f := range fns {
+			have[f] = true
+		}
+		for _, p := range c.LibPkgs() {
+			rel := c.Rel(p.Types)
+			if !(strings.HasPrefix(rel, "protocols/") && strings.Contains(rel, "keygen")) {
+				continue
+			}
+			for _, fn := range funcsOfPkg(c, c.SSA[p.Types]) {
+				withAnon(fn, func(f *ssa.Function) {
+					if !have[f] {
+						have[f] = true
+						fns = append(fns, f)
+					}
+				})
+			}
+		}
+	}
 	checkAlias(c, r, "ALIAS-1", fns)
 	r.Hold("ALIAS-1", "keygen-rounds|scanned", "protocols/*/keygen", fmt.Sprintf("%d functions scanned for in-place mutation of previous-epoch objects", len(fns)))
 
